@@ -42,7 +42,7 @@ func genC15(t *rapid.T) c15Case {
 		Dirty: rapid.Bool().Draw(t, "dirty"), Config: rapid.IntRange(0, 3).Draw(t, "config") > 0}
 	text := rapid.OneOf(rapid.SampledFrom([]string{"plain", "with \"quotes\" and $vars", "unicode é 日本 🐛", "-starts-with-dash", "multi\nline"}), GenTitle())
 	one := rapid.Custom(func(t *rapid.T) c15Step {
-		return c15Step{Kind: rapid.SampledFrom([]string{"new", "new", "comment", "comment", "title", "close", "open", "label", "rm", "select", "deselect", "push", "push", "pull", "pull", "peeredit", "peeredit", "attach", "show", "ls", "gc", "bridgeconf", "bridgerm"}).Draw(t, "kind"),
+		return c15Step{Kind: rapid.SampledFrom([]string{"new", "new", "comment", "comment", "title", "close", "open", "label", "rm", "select", "deselect", "push", "push", "pull", "pull", "peeredit", "peeredit", "attach", "show", "ls", "gc", "bridgeconf", "bridgerm", "longsession"}).Draw(t, "kind"),
 			Bug: rapid.IntRange(0, 5).Draw(t, "bug"), Text: text.Draw(t, "text")}
 	})
 	c.Steps = rapid.SliceOfN(one, 5, 18).Draw(t, "steps")
@@ -262,7 +262,7 @@ func runC15(tb report.TB, rep *report.Reporter, c c15Case) {
 		}
 		return l[n%len(l)]
 	}
-	nPush, nPull, nAttach, nGC, nMultiAttach, nBridge, merged := 0, 0, 0, 0, 0, 0, false
+	nPush, nPull, nAttach, nGC, nMultiAttach, nBridge, nLong, merged := 0, 0, 0, 0, 0, 0, 0, false
 	var kinds []string
 	for i, s := range c.Steps {
 		kinds = append(kinds, s.Kind)
@@ -333,6 +333,40 @@ func runC15(tb report.TB, rep *report.Reporter, c c15Case) {
 			nBridge++
 		case "bridgerm":
 			res = run(host, "bridge", "rm", []string{"mygitlab", "my", "mygitlab2"}[s.Bug%3])
+		case "longsession":
+			// a long-running git-bug process (web UI, a bridge pull) keeps its repository handle while the user
+			// goes on working with stock git: what stock git wrote in between must survive git-bug's next write
+			repo, err := repository.OpenGoGitRepo(host, "git-bug", nil)
+			if err != nil {
+				tb.Fatalf("harness: %v", err)
+			}
+			_, _ = repo.LocalConfig().ReadAll("git-bug")
+			_, _ = repo.GetRemotes()
+			key, val := fmt.Sprintf("verif-outside.k%d", i), fmt.Sprintf("value %d", i)
+			rname, rurl := fmt.Sprintf("outside%d", i), fmt.Sprintf("https://example.org/outside%d.git", i)
+			RunGit(host, "config", "--local", key, val)
+			RunGit(host, "remote", "add", rname, rurl)
+			err = repo.LocalConfig().StoreString("git-bug.verif-session-probe", "x")
+			if err == nil {
+				err = repo.LocalConfig().RemoveAll("git-bug.verif-session-probe")
+			}
+			_ = repo.Close()
+			if err != nil {
+				if fail("library-action-fails/config-write/"+Normalize(err.Error()), err.Error()) {
+					return
+				}
+			}
+			gotVal := strings.TrimSpace(RunGit(host, "config", "--local", "--get", key).Out)
+			gotURL := strings.TrimSpace(RunGit(host, "config", "--local", "--get", "remote."+rname+".url").Out)
+			if gotVal != val || gotURL != rurl {
+				if fail("host-repository-disturbed/foreign-configuration-lost-in-a-long-session", fmt.Sprintf("step #%d: stock git wrote %s=%q and remote %s=%q while git-bug held the repository; after git-bug's next configuration write they read %q and %q", i, key, val, rname, rurl, gotVal, gotURL)) {
+					return
+				}
+			}
+			RunGit(host, "config", "--local", "--unset", key)
+			RunGit(host, "config", "--local", "--remove-section", "verif-outside")
+			RunGit(host, "remote", "remove", rname)
+			nLong++
 		case "gc":
 			// stock git, run by the user between two git-bug commands
 			if g := RunGit(host, "gc", "-q"); g.Code != 0 {
@@ -412,7 +446,7 @@ func runC15(tb report.TB, rep *report.Reporter, c c15Case) {
 	}
 	after := hostState(host)
 	rep.Case(strings.Join(kinds, ","), (nPush+nPull) > 0 && (nAttach > 0 || merged),
-		[]string{"head:" + c.Head, fmt.Sprintf("dirty:%v", c.Dirty), fmt.Sprintf("rich-config:%v", c.Config), fmt.Sprintf("merged:%v", merged), fmt.Sprintf("attachments:%v", nAttach > 0), fmt.Sprintf("gc-between-commands:%v", nGC > 0), fmt.Sprintf("several-attachment-operations-in-one-commit:%v", nMultiAttach > 0), fmt.Sprintf("bridge-configured:%v", nBridge > 0), fmt.Sprintf("ends-with-wipe:%v", c.Wipe)}, c)
+		[]string{"head:" + c.Head, fmt.Sprintf("dirty:%v", c.Dirty), fmt.Sprintf("rich-config:%v", c.Config), fmt.Sprintf("merged:%v", merged), fmt.Sprintf("attachments:%v", nAttach > 0), fmt.Sprintf("gc-between-commands:%v", nGC > 0), fmt.Sprintf("several-attachment-operations-in-one-commit:%v", nMultiAttach > 0), fmt.Sprintf("bridge-configured:%v", nBridge > 0), fmt.Sprintf("stock-git-writes-during-a-long-session:%v", nLong > 0), fmt.Sprintf("ends-with-wipe:%v", c.Wipe)}, c)
 	if aspect, detail := before.diff(after); aspect != "" {
 		if fail("host-repository-disturbed/"+aspect, detail) {
 			return
